@@ -7,7 +7,7 @@ From Coq Require Import ZArith QArith NArith String Ascii Bool Lia List.
 Import ListNotations.
 From TP Require Import Base.PyVal Base.PyOps Base.PyOps2 Base.PyObj Base.PyOpsInit
      Fields.FieldAst Fields.SetChain Struct.Shapes Struct.Instance Struct.Entry Struct.InitModel Struct.EntrySrcModel
-     Struct.InstanceProofs Struct.InitSrcProofs Gen.EntrySrc.
+     Struct.InstanceProofs Struct.StructGuardProofs Struct.InitSrcProofs Gen.EntrySrc.
 From TP Require Base.PyOpsVersioned Base.PyOpsFields Base.PyOpsDerive.
 Local Open Scope Z_scope.
 
@@ -549,5 +549,111 @@ Section Entries.
     - unfold bindM, lift, ret. cbn [PyOpsDerive.py_format]. unfold py_substr, exc_str. cbn [x_cls x_arg w_repr_str EW entry_world].
       change (s2p ": missing a required argument") with (58%N :: s2p " missing a required argument").
       destruct x; rewrite str_contains_nil; reflexivity.
+  Qed.
+
+  (* ---------------------------------------------------------------- shallow_clone_with_overrides( **over) *)
+  Definition merge_kw (base over : kwargs) : kwargs := fold_left (fun acc p => alist_set acc (fst p) (snd p)) over base.
+
+  (* the keyword arguments in the order the SOURCE builds them: every non-None field value in field order, an
+     overridden one replaced in place, new names appended ({**fields, **kw}); Struct/Entry.v [clone_kwargs] lists the
+     same bindings with the overridden ones moved to the end *)
+  Definition clone_kwargs_src (cd : classdef) (a : attrs) (over : kwargs) : kwargs := merge_kw (cast_kwargs cd cd a) over.
+
+  Lemma dict_set_pairs l n v : dict_set (pairs l) (PStr n) v = pairs (alist_set l n v).
+  Proof.
+    induction l as [|[k x] t IH]; [reflexivity|].
+    cbn [pairs map dict_set py_eq alist_set fst snd]. fold (pairs t).
+    destruct (pystr_eqb k n); [reflexivity|]. cbn [pairs map fst snd]. fold (pairs (alist_set t n v)). f_equal. exact IH.
+  Qed.
+
+  Lemma merge_pairs_gen (over base : kwargs) :
+    PyOpsFields.py_dict_merge (PDict (pairs base)) (PDict (pairs over)) = Ok (PDict (pairs (merge_kw base over))).
+  Proof.
+    unfold PyOpsFields.py_dict_merge, merge_kw. f_equal. f_equal. revert base.
+    induction over as [|[n v] t IH]; intro base; [reflexivity|].
+    cbn [pairs map fold_left fst snd]. fold (pairs t). rewrite dict_set_pairs. apply IH.
+  Qed.
+
+  Lemma field_getattr cd a k : In k (field_names cd) -> exists v, getattr_opt cd a k = Some v.
+  Proof.
+    intro Hk. unfold getattr_opt. destruct (alist_get a k) as [v|]; [exists v; reflexivity|].
+    assert (H : str_in k (field_names cd) = true) by (apply str_in_In, Hk).
+    rewrite in_field_names in H. destruct (find_field (c_fields cd) k); [eexists; reflexivity | discriminate H].
+  Qed.
+
+  Theorem generated_clone_is_constructor : forall cd a over,
+      find_class e (c_name cd) = Some cd ->
+      names_ok a = true -> vals_defined a = true -> defaults_defined cd = true -> fields_ok cd = true ->
+      entry_view (Structure__shallow_clone_with_overrides (EH cd cd) (EW cd cd) (kw_dict over) (inst_state a)) =
+      construct re_match e cd (clone_kwargs_src cd a over).
+  Proof.
+    intros cd a over Hd Ha Hva Hdd Hft.
+    pose proof (resolves_ct cd cd) as Rt.
+    set (s := inst_state a).
+    unfold Structure__shallow_clone_with_overrides.
+    assert (Q : self_query (EH cd cd) (s2p "get_all_fields_by_name") s = (s, inl (fields_map cd))).
+    { unfold self_query, s. rewrite (state_get_reserved a (s2p "get_all_fields_by_name") Ha eq_refl eq_refl). reflexivity. }
+    rewrite (bindM_ok _ _ _ _ _ Q). rewrite fields_keys.
+    rewrite (bindM_ok _ _ s s (PList (map PStr (field_names cd))) eq_refl). cbv zeta.
+    rewrite (bindM_ok _ _ s s (map PStr (field_names cd)) eq_refl).
+    assert (F1 : self_getattr (EH cd cd) (s2p "__class__") s = (s, inl (ref (cobj (c_name cd))))) by exact (self_class_obj cd cd a Ha).
+    assert (HK : obj_getattr_def (EH cd cd) (ref (cobj (c_name cd))) (s2p "_constants") (PDict []) = Ok (PDict [])).
+    { unfold obj_getattr_def, ref. rewrite pystr_eqb_refl. rewrite Rt. reflexivity. }
+    assert (NF : self_getattr (EH cd cd) (s2p "_none_fields") s = (s, inl (PSet false []))).
+    { unfold self_getattr, s, inst_state. rewrite alist_get_app.
+      assert (H0 : alist_get a n_none_fields = None).
+      { clear -Ha. induction a as [|[k v] t IH]; [reflexivity|].
+        cbn [names_ok forallb fst] in Ha. apply andb_true_iff in Ha. destruct Ha as [H1 H2]. cbn [alist_get].
+        destruct (pystr_eqb k n_none_fields) eqn:E; [|exact (IH H2)].
+        apply pystr_eqb_spec in E. subst k. discriminate H1. }
+      change (s2p "_none_fields") with n_none_fields. rewrite H0. reflexivity. }
+    assert (HF : forall k, In k (field_names cd) ->
+       (fun v_f_5 : pyval =>
+          (c <~ (andM (orM (t6 <~ getattr_dynM (EH cd cd) (ref (s2p "self")) v_f_5 None ;; ret (py_is_not_none t6))
+                           (fun _ => (t7 <~ self_getattr (EH cd cd) (s2p "_none_fields") ;; lift (py_in_dyn v_f_5 t7))))
+                      (fun _ => (t8 <~ self_getattr (EH cd cd) (s2p "__class__") ;;
+                                 t9 <~ lift (obj_getattr_def (EH cd cd) t8 (s2p "_constants") (PDict [])) ;;
+                                 notM (lift (py_in_dyn v_f_5 t9))))) ;;
+           if c then (t10 <~ getattr_dynM (EH cd cd) (ref (s2p "self")) v_f_5 None ;; ret (Some (v_f_5, t10))) else ret None)) (PStr k) s =
+       (s, inl (option_map ppair (cast_pick cd a k)))).
+    { intros k Hk. pose proof (field_name_ok cd k Hft Hk) as Hok. cbv beta.
+      destruct (field_getattr cd a k Hk) as [v Eg].
+      pose proof (getattr_self cd cd a k v Hok Eg) as G. fold s in G.
+      assert (C1 : (t6 <~ getattr_dynM (EH cd cd) (ref (s2p "self")) (PStr k) None ;; ret (py_is_not_none t6)) s = (s, inl (not_none v))).
+      { rewrite (bindM_ok _ _ _ _ _ G). reflexivity. }
+      assert (C2 : (t7 <~ self_getattr (EH cd cd) (s2p "_none_fields") ;; lift (py_in_dyn (PStr k) t7)) s = (s, inl false)).
+      { rewrite (bindM_ok _ _ _ _ _ NF). reflexivity. }
+      assert (C3 : (t8 <~ self_getattr (EH cd cd) (s2p "__class__") ;;
+                    t9 <~ lift (obj_getattr_def (EH cd cd) t8 (s2p "_constants") (PDict [])) ;;
+                    notM (lift (py_in_dyn (PStr k) t9))) s = (s, inl (negb false))).
+      { rewrite (bindM_ok _ _ _ _ _ F1). rewrite HK. reflexivity. }
+      rewrite (bindM_ok _ _ _ _ _ (andM_eval _ _ _ _ _ (orM_eval _ _ _ _ _ C1 C2) C3)).
+      unfold cast_pick. rewrite Eg. rewrite orb_false_r. cbn [negb]. rewrite andb_true_r.
+      destruct (not_none v); [|reflexivity]. rewrite (bindM_ok _ _ _ _ _ G). reflexivity. }
+    rewrite (bindM_ok _ _ _ _ _ (filterMM_names _ (cast_pick cd a) s (field_names cd) HF)).
+    rewrite <- cast_kwargs_pick. set (B := cast_kwargs cd cd a).
+    assert (Hnd : has_dup (map fst B) = false).
+    { unfold B. rewrite cast_kwargs_pick. apply flat_map_keys.
+      - unfold fields_ok in Hft. apply andb_true_iff in Hft. destruct Hft as [_ H]. apply negb_true_iff, H.
+      - intros k p H. unfold cast_pick in H. destruct (getattr_opt cd a k) as [v|]; [|discriminate H].
+        destruct (not_none v); inversion H; reflexivity. }
+    assert (Hud : forallb (fun p => negb (undefined_ref (snd p))) B = true).
+    { apply forallb_forall. intros p Hp. unfold B in Hp. rewrite cast_kwargs_pick in Hp. apply in_flat_map in Hp.
+      destruct Hp as [k [_ Hp]]. unfold cast_pick in Hp. destruct (getattr_opt cd a k) as [v|] eqn:Eg; [|destruct Hp].
+      destruct (not_none v); [|destruct Hp]. destruct Hp as [<-|[]]. cbn [snd].
+      apply negb_true_iff. exact (getattr_opt_defined cd a k v Hva Hdd Eg). }
+    rewrite (dict_of_pairs _ Hnd). rewrite (bindM_ok _ _ s s (PDict (pairs B)) eq_refl). cbv zeta.
+    rewrite (bindM_ok _ _ s s (pairs B) eq_refl).
+    change (filterMM _ (pairs B)) with (filterMM undef_filter (pairs B)).
+    rewrite (bindM_ok _ _ _ _ _ (undef_filter_id s _ Hud)).
+    rewrite (dict_of_pairs _ Hnd). rewrite (bindM_ok _ _ s s (PDict (pairs B)) eq_refl).
+    change (PDict []) with (PDict (pairs [])).
+    rewrite (merge_pairs [] B Hnd (fun _ _ => eq_refl)). cbn [app].
+    rewrite (bindM_ok _ _ s s (PDict (pairs B)) eq_refl).
+    change (kw_dict over) with (PDict (pairs over)). rewrite merge_pairs_gen.
+    rewrite (bindM_ok _ _ s s (PDict (pairs (merge_kw B over))) eq_refl). cbv zeta.
+    rewrite (bindM_ok _ _ _ _ _ F1).
+    unfold bindM at 1. rewrite (new_is_construct cd cd cd _ s Rt (or_introl eq_refl) Hd Hd).
+    unfold clone_kwargs_src. fold B. destruct (construct re_match e cd (merge_kw B over)); reflexivity.
   Qed.
 End Entries.
